@@ -117,6 +117,12 @@ Definition dispatch (msg_id protocol_id_length length avail : N) (buf : bytes) :
       else if length =? Cancel_LEN then PIncomplete else wrong_len
     else PUnknown msg_id (MSG_LEN_SIZE + length).
 
+(* Repair flag of Frame::parse, pinned by the correspondence: a handshake is recognised by its whole beginning
+   ("\x13Bit" at the length position and 'T' at the id position); 'T' under any other length is an ordinary unknown
+   id (pinned code: every message with id byte 84 was taken for a handshake, so 00 00 00 01 54 ended the connection). *)
+Definition Frame_handshake_by_prefix : bool := true.
+Definition handshake_prefix : N := unbe32 19 66 105 116.     (* u32::from_be_bytes([19, b'B', b'i', b't']) *)
+
 Definition parse_frame (buf : bytes) : presult :=
   let avail := len buf in
   (* get_message_length *)
@@ -127,7 +133,10 @@ Definition parse_frame (buf : bytes) : presult :=
   if avail <? MSG_LEN_SIZE + MSG_ID_SIZE then PIncomplete else
   match nthN buf MSG_ID_POS, nthN buf 0 with
   | Some msg_id, Some protocol_id_length =>
-    if negb (msg_id =? Handshake_ID_FROM_PROTOCOL) && (MAX_FRAME_SIZE <? length) then PError else
+    let hs := (msg_id =? Handshake_ID_FROM_PROTOCOL) &&
+              (negb Frame_handshake_by_prefix || (length =? handshake_prefix)) in
+    if negb hs && (MAX_FRAME_SIZE <? length) then PError else
+    if (msg_id =? Handshake_ID_FROM_PROTOCOL) && negb hs then PUnknown msg_id (MSG_LEN_SIZE + length) else
     dispatch msg_id protocol_id_length length avail buf
   | _, _ => PIncomplete
   end.
